@@ -104,6 +104,7 @@ Definition value_guard (sl : slot) (u : unit_kind) (v : R) (s : spdc) : Prop :=
   | SBeamTheta _ => -180 < v <= 180
   | SBeamPhi _ => 0 <= v < 360
   | SBeamWavelength _ => v <> 0
+  | SBeamFrequency _ => v <> 0
   | SBeamThetaExternal b => - PI < snell_internal (get_beam b s) (Rabs (si_of u v)) (s_crystal_setup s) <= PI
   | _ => True
   end.
@@ -112,12 +113,13 @@ Definition expected_value (sl : slot) (u : unit_kind) (v : R) (s : spdc) : R :=
   match sl with
   | SBeamThetaExternal b => round4 (snell_internal (get_beam b s) (Rabs (si_of u v)) (s_crystal_setup s) / (PI / 180))
   | SWaistPosition BIdler => v          (* the view does not round this one field *)
+  | SBeamFrequency _ => round4 (c_light / (v * 1e12) / 1e-9)   (* shown as the vacuum wavelength in nm *)
   | _ => round4 v
   end.
 
 Definition value_entry_ok (e : string * (slot * unit_kind)) : Prop :=
   let sl := fst (snd e) in let u := snd (snd e) in
-  u <> UThz -> sl <> SPolingPeriod -> forall s v, value_guard sl u v s ->
+  sl <> SPolingPeriod -> forall s v, value_guard sl u v s ->
   assoc (config_key sl) (config_num (ideal sl (si_of u v) s)) = Some (expected_value sl u v s).
 
 Ltac value_tac :=
@@ -136,8 +138,8 @@ Lemma all_values_ok : Forall value_entry_ok spec_table.
 Proof.
   unfold spec_table.
   repeat (apply Forall_cons;
-          [ unfold value_entry_ok; cbn [fst snd]; intros Hu Hp;
-            first [ exfalso; apply Hu; reflexivity | exfalso; apply Hp; reflexivity | value_tac ] | ]).
+          [ unfold value_entry_ok; cbn [fst snd]; intros Hp;
+            first [ exfalso; apply Hp; reflexivity | value_tac ] | ]).
   apply Forall_nil.
 Qed.
 
@@ -162,17 +164,24 @@ Proof.
   - exists (Rabs v * 1e-6). split; [reflexivity | split; [lra | reflexivity]].
 Qed.
 
-(* on an unpoled description the reference behaviour creates the poling, without apodization *)
+(* on an unpoled description the poling is created, without apodization, with the derived sign *)
 Lemma poling_value_unpoled s v :
   s_pp s = Off -> v <> 0 ->
-  config_poling (ideal SPolingPeriod (si_of UUm v) s) = Some (round4 (Rabs v), CfgOff).
+  let s' := ideal SPolingPeriod (si_of UUm v) s in
+  config_poling s' = Some (round4 (Rabs v), CfgOff) /\
+  exists m, s_pp s' = On m (compute_sign (s_signal s) (s_pump s) (s_crystal_setup s)) ApOff /\ 0 < m /\ m = Rabs v * 1e-6.
 Proof.
   intros Hpp Hv. destruct s as [sgn idl pm cr pp pw bw th swp iwp df]. cbn [s_pp] in Hpp. subst pp.
-  unfold config_poling. proj_simpl. cbn [pp_with_period si_of]. unfold pp_new.
+  cbv zeta. unfold config_poling. proj_simpl. cbn [pp_with_period si_of]. unfold pp_new.
   set (cs := compute_sign sgn pm cr).
   assert (Hpos : 0 < Rabs (v * 1e-6)) by (apply Rabs_pos_lt; lra).
   assert (Habs : Rabs (v * 1e-6) = Rabs v * 1e-6) by (rewrite Rabs_mult, (Rabs_right 1e-6); lra).
-  cbn [pp_to_config apod_to_config]. f_equal. f_equal. unfold round4. do 3 f_equal.
-  destruct cs; cbn [sign_mul]; destruct (Rgt_dec _ (0 * 1)) as [H | H]; lra.
+  assert (Hst : (if Rgt_dec (sign_mul cs (Rabs (v * 1e-6))) (0 * 1) then sign_mul cs (Rabs (v * 1e-6)) else - sign_mul cs (Rabs (v * 1e-6))) = Rabs v * 1e-6
+                /\ (if Rgt_dec (sign_mul cs (Rabs (v * 1e-6))) (0 * 1) then POSITIVE else NEGATIVE) = cs).
+  { destruct cs; cbn [sign_mul]; destruct (Rgt_dec _ (0 * 1)) as [H | H]; split; try reflexivity; try lra; exfalso; lra. }
+  destruct Hst as [Hm Hs]. rewrite Hm, Hs. cbn [pp_to_config apod_to_config].
+  split.
+  - f_equal. f_equal. unfold round4. do 3 f_equal. lra.
+  - exists (Rabs v * 1e-6). split; [reflexivity | split; [lra | reflexivity]].
 Qed.
 End Frame.
